@@ -180,12 +180,18 @@ def check(case, ctx):
     ctx.count("selection_checked")
     best = min(range(len(trials)), key=lambda k: (trials[k]["cost"], k))
     got_centres = [(m.center.x, m.center.y) for m in r[0].netlist.modules]
-    if final["kappa"] != trials[best]["kappa"]:
-        ctx.violation("wrong_selection", f"final layout uses kappa={final['kappa']}, but the smallest cost {trials[best]['cost']} was obtained first with kappa={trials[best]['kappa']}; costs={[(t['kappa'], t['cost']) for t in trials]} :: {what}")
-    elif got_centres != trials[best]["centres"]:
-        ctx.violation("final_layout_differs", f"returned layout differs from the best trial's layout (kappa={final['kappa']}) :: {what}")
-    if any(t["same_object"] for t in trials) and False:
-        pass
+    same = [t for t in trials if t["kappa"] == final["kappa"]]
+    if not same:
+        ctx.violation("wrong_selection", f"final layout uses kappa={final['kappa']}, which was not among the trials {[t['kappa'] for t in trials]} :: {what}")
+        return
+    chosen = same[0]
+    # costs that agree within rounding noise are ties: any of them is 'the smallest' (the harness computes the wire length independently,
+    # in a different summation order than the library)
+    tol = 1e-9 * max(1.0, abs(trials[best]["cost"]))
+    if chosen["cost"] > trials[best]["cost"] + tol:
+        ctx.violation("wrong_selection", f"final layout uses kappa={final['kappa']} (cost {chosen['cost']}), but cost {trials[best]['cost']} was obtained with kappa={trials[best]['kappa']}; costs={[(t['kappa'], t['cost']) for t in trials]} :: {what}")
+    elif got_centres != chosen["centres"]:
+        ctx.violation("final_layout_differs", f"returned layout differs from the layout of the trial with the same kappa={final['kappa']} :: {what}")
     dcost = final["cost"]
-    if isinstance(dcost, float) and abs(dcost - trials[best]["cost"]) > 1e-9 * max(1.0, abs(dcost)):
-        ctx.violation("final_cost_differs", f"returned layout has cost {dcost}, best trial {trials[best]['cost']} :: {what}")
+    if isinstance(dcost, float) and abs(dcost - chosen["cost"]) > tol:
+        ctx.violation("final_cost_differs", f"returned layout has cost {dcost}, its trial had {chosen['cost']} :: {what}")
